@@ -314,7 +314,9 @@ class SiteOracle:
 ENUMS = {"NoOp": 0, "OptIn": 1, "CloseOut": 2, "ClearState": 3, "UpdateApplication": 4, "DeleteApplication": 5,
          "unknown": 0, "pay": 1, "keyreg": 2, "acfg": 3, "axfer": 4, "afrz": 5, "appl": 6}
 INT_POOL = [0, 1, 2, 3, 4, 5, 6, 7, 100, 126, 127, 128, 129, 255, 256, 1000, 65535, 2 ** 32, 2 ** 63, 2 ** 64 - 2, 2 ** 64 - 1]
-SIGS = ["add(uint64,uint64)uint64", "f()void", "transfer(address,uint64)bool", "a(byte[],(uint8,string))string", "x()uint8"]
+SIGS = ["add(uint64,uint64)uint64", "f()void", "transfer(address,uint64)bool", "a(byte[],(uint8,string))string", "x()uint8",
+        # hand-written, not canonical ARC-4 spellings: the selector is the hash of the text AS WRITTEN
+        "add(uint64, uint64)uint64", " f()void", "f() void", "f()void ", "a\tb()void", "f(uint8 ,uint8)void"]
 
 
 def b32(b, pad):
